@@ -224,6 +224,10 @@ class Portfolio(IncrementalTrackingSolver):
         if self._ext_solver and self._ext_solver.is_alive():
             self._ext_solver.terminate()
             _debug("Previous solver killed")
+        # No winner until the next successful solve: a query that
+        # fails must not leave the previous winner behind (get_model
+        # would wait forever on a pipe nobody listens to)
+        self._ext_solver = None
 
     def _exit(self):
         self._close_existing()
